@@ -55,6 +55,11 @@ CLAIMED = {
         note="Lens at angles off its azimuthal quadrature grid is covariant only up to quadrature error (searched with a converged quadrature); covariance of the compiled Multisphere and T-matrix solvers is search-only; S1,S2 independent of azimuth is an assumption about the Fortran series routines.",
         technique="Lean 4 theorems over definitions regenerated from Fortran/Python + differential correspondence + metamorphic search (generic angles, all theories, above/below focus)",
         ref="DESIGN.md §5 C05"),
+    "C11": dict(
+        text="Proof (Lean 4, core only, no axioms beyond propext/Quot.sound): for a symbolic model of Mapper/read_map/edit_map_indices/Model.__init__/add_tie — reading the map of ANY nested structure (lists, dictionaries with None entries dropped, labelled arrays, complex priors, hierarchical transformed priors, priors shared by identity) with a value vector puts each value at every site of its prior, applies the transformations and leaves constants untouched (mutual structural induction; the mapper only ever appends parameters); the four parameter groups of a Model yield one parameter per distinct prior; a freshly added name is not in use (one step); name-keyed and list-ordered values coincide for distinct names; after add_tie, reading the edited maps equals reading the old maps with the tied value repeated; tied parameters read the kept (smallest) index; a scatterer tree rebuilt from its own flattened parameter dictionary equals the original for every nesting. The model is tied by EXACT string-level correspondence of maps, names, read objects, ties and 'i:key' flattening on generated structures (name collisions a, a_0, a_0_0 included).",
+        note="Termination of the name de-duplication loop (hence name uniqueness over whole runs) and the survivor-position arithmetic of add_tie are not proved in general (exact correspondence on all subsets of up to 5 candidates + implementation search instead); aliasing ('no shared mutable state') is search-only; a Model over a RigidCluster is a known finding.",
+        technique="Lean 4 theorems by mutual structural recursion over nested inductives + exact symbolic correspondence + implementation search incl. bounded-exhaustive ties",
+        ref="DESIGN.md §5 C11"),
 }
 
 NOT_YET = {}
